@@ -29,18 +29,20 @@ class S:
         return f"S{self.shape}"
 
 
+# leaf shapes are drawn from a small common set ((), (1,), (3,), (2,2), (8,), (4,4)) so that the
+# eagerly dispatched jax primitives of the Python-loop solvers are compiled only a few times
 _SPECS = {
     # name: (spec, wrap in Vector?, complex?)
     "a1": (S(1), False, False),
-    "a5": (S(5), False, False),
-    "a3x4": (S(3, 4), False, False),
+    "a3": (S(3), False, False),
+    "a4x4": (S(4, 4), False, False),
     "vd7": ({"a": S(3), "b": S(2, 2)}, True, False),
-    "vt10": ((S(4), S(), S(5)), True, False),
+    "vt8": ((S(3), S(), S(2, 2)), True, False),
     "vl24": ([S(8), {"u": S(4, 4)}], True, False),
     "vd2": ({"x": S(), "y": S(1)}, True, False),
     "vn16": ({"k": (S(3), [S(2, 2), S(1)]), "m": S(8)}, True, False),
-    "c4": (S(4), False, True),
-    "vc6": ({"a": S(2), "b": S(2, 2)}, True, True),
+    "c3": (S(3), False, True),
+    "vc7": ({"a": S(3), "b": S(2, 2)}, True, True),
 }
 REAL_LAYOUTS = [k for k, v in _SPECS.items() if not v[2]]
 CPLX_LAYOUTS = [k for k, v in _SPECS.items() if v[2]]
@@ -61,10 +63,13 @@ class Layout:
     def wrap(self, v):
         """flat vector (numpy / jax / tracer) -> pytree position"""
         import jax.numpy as jnp
-        v = jnp.asarray(v)
+        if isinstance(v, np.ndarray):       # numpy slicing: no jax dispatch per leaf
+            conv = lambda a: jnp.asarray(a)
+        else:
+            conv = lambda a: a
         out, o = [], 0
         for l in self.leaves:
-            out.append(v[o:o + l.size].reshape(l.shape))
+            out.append(conv(v[o:o + l.size].reshape(l.shape)))
             o += l.size
         t = self.treedef.unflatten(out)
         if self.vector:
@@ -83,10 +88,19 @@ class Layout:
         return np.concatenate([np.asarray(x).ravel() for x in tree_leaves(t)])
 
     def matfun(self, A):
-        """the linear map ``x -> A x`` on pytree positions (A dense on the flat vector)"""
+        """the linear map ``x -> A x`` on pytree positions (A dense on the flat vector); traceable"""
         def mat(x):
             return self.wrap(A @ self.flat(x))
         return mat
+
+    def matfun_eager(self, A):
+        """same map for eager (Python loop) solvers: one jitted kernel per layout, A as argument"""
+        import jax
+        import jax.numpy as jnp
+        if not hasattr(self, "_matj"):
+            self._matj = jax.jit(lambda A, x: self.wrap(A @ self.flat(x)))
+        Aj = jnp.asarray(A)
+        return lambda x: self._matj(Aj, x)
 
 
 _LAYOUT_CACHE = {}
